@@ -545,3 +545,45 @@ Proof.
   exists [LClConnect 0 20; LClConnect 1 10; LDeliver 0; LDeliver 0; LClAccept 0 20; LClAccept 1 10; LDeliver 0; LDeliver 0].
   vm_compute. repeat split.
 Qed.
+
+(* ------------------------------------------------------------------ one response slot per request *)
+(* classic_pending_commands[peer][HOST_CONNECTION_REQ]: Controller.send_lmp_packet makes a fresh
+   (unresolved) future for every request it sends, whatever the slot held before ... *)
+Theorem request_gets_fresh_slot : forall cs i c peer c' e o,
+  cl_connect cs i c peer = (c', e, o) -> o <> [] ->
+  lmp_get (c_lmp c') peer = Some false /\ (forall h p, ~ In (EClConn h p) e).
+Proof.
+  intros cs i c peer c' e o H Ho. unfold cl_connect in H.
+  destruct (c_pending c); [inversion H; subst; congruence|].
+  match type of H with (if ?b then _ else _) = _ => destruct b end; [inversion H; subst; congruence|].
+  destruct (find_classic cs peer); inversion H; subst; [|congruence].
+  split; [simpl; apply lmp_get_set_same|]. intros h p [Hin|[]]. discriminate.
+Qed.
+
+(* ... and an LMP_accepted completes a connection only when the slot of its sender holds an
+   unresolved future, which it resolves: a response concludes only a request issued after the
+   previous response; a second response, or one without request, reports no connection *)
+Theorem response_resolves_pending_request_only : forall cs n j c a c' e o h p,
+  on_message cs n j c (MLmpAccepted a) = (c', e, o) -> In (EClConn h p) e ->
+  lmp_get (c_lmp c) a = Some false /\ lmp_get (c_lmp c') a = Some true /\ p = a.
+Proof.
+  intros cs n j c a c' e o h p H Hin. simpl in H. unfold on_lmp_accepted in H.
+  destruct (lmp_get (c_lmp c) a) as [[|]|] eqn:E; try (inversion H; subst; simpl in Hin; intuition discriminate).
+  unfold classic_complete in H.
+  change (alloc (set_lmp c (lmp_set (c_lmp c) a true))) with (alloc c) in H.
+  destruct (alloc c); [|inversion H; subst; simpl in Hin; intuition discriminate].
+  split; [reflexivity|].
+  destruct (tbl_get (c_cl (set_lmp c (lmp_set (c_lmp c) a true))) a); inversion H; subst; simpl;
+    (split; [apply lmp_get_set_same|]); destruct Hin as [Hin|[]]; inversion Hin; reflexivity.
+Qed.
+
+(* no host command reports a BR/EDR connection to an initiator: Create Connection only answers
+   with a status (or Page Timeout), the connection is reported by the response or by the accept *)
+Theorem create_connection_reports_no_connection : forall cs i c peer c' e o h p,
+  cl_connect cs i c peer = (c', e, o) -> ~ In (EClConn h p) e.
+Proof.
+  intros cs i c peer c' e o h p H Hin. unfold cl_connect in H.
+  destruct (c_pending c); [inversion H; subst; simpl in Hin; intuition discriminate|].
+  match type of H with (if ?b then _ else _) = _ => destruct b end; [inversion H; subst; simpl in Hin; intuition discriminate|].
+  destruct (find_classic cs peer); inversion H; subst; simpl in Hin; intuition discriminate.
+Qed.
